@@ -108,6 +108,9 @@ OPS = [
     ("insert", "N", [A("n")]), ("insert", "A", [A("n")]),
     ("remove", "A"), ("remove", "B"), ("remove", "N"),
     ("rename", "A", "R"), ("rename", "B", "R"), ("rename", "N", "R"),
+    # value lines whose text starts with ':' (must still be value lines when the document is read again)
+    ("set", "B", [symstr.mk([("lit", ":"), ("atom", "c1", "line")]), symstr.mk([("lit", ":"), ("atom", "c2", "line")])]),
+    ("insert", "N", [A("n"), symstr.mk([("lit", "::")])]),
 ]
 
 
@@ -204,6 +207,16 @@ def run(tier):
             if len(hist) == 1 and op[0] == "rename" and len(res) == 1 and res[0][0] == OK:
                 existed = any(r["type"] == "field" and r["key"] == op[1] for r in doc[0])
                 C.ob("C04/rename-result", label, res[0][1] == ("bool", existed), "rename returns %s, expected %s" % (res[0][1], existed))
+            # the printed document re-lexes (extracted lexer table) into well-formed lines that read as the model
+            if ok and len(res) == 1:
+                import c05, c07
+                flat = []
+                c05.flatten(tm, treemodel.heap_get(res[0][2]), root, flat)
+                re_toks = c07.relex(F, flat)
+                paras, err = c05.split_by_dfa(re_toks) if re_toks is not None else (None, "the printed text cannot be re-lexed")
+                want_paras = [items_of(p) for p in want_doc if items_of(p)]
+                C.ob("C04/reread", label, err is None and paras == want_paras,
+                     "the printed document %r re-reads as %s (%s); the list model has %s" % (want, paras, err, want_paras), F.fn(P + "Paragraph::" + hist[-1][0])["sp"])
             # live object reports the same content
             if ok and len(res) == 1:
                 s = res[0][2]
